@@ -58,3 +58,5 @@ def run(ctx):
     _b.check_predicates(ctx, 'C10.RP', 'C10')
     from .. import boundaries as _b
     _b.check_updates(ctx, 'C10.RU', 'C10')
+    from .. import boundaries as _b
+    _b.check_guards(ctx, 'C10.RG', 'C10')
